@@ -53,6 +53,15 @@ func buildCorpus(tier string) []corpusItem {
 			out = append(out, corpusItem{e, msg, fmt.Sprintf("%s size%d", desc, si)})
 		}
 	}
+	// documents as a foreign server writes them
+	for i := 0; i < 12; i++ {
+		doc := gen.PeerDoc(core.NewTape(core.Mix(0xC04D0C, uint64(i))))
+		for _, name := range []string{"pkg.UnmarshalJSON", []string{"Object.UnmarshalJSON", "Activity.UnmarshalJSON", "Actor.UnmarshalJSON", "OrderedCollection.UnmarshalJSON"}[i%4]} {
+			if e := byName[name]; e != nil {
+				out = append(out, corpusItem{e, doc, fmt.Sprintf("peer document %d", i)})
+			}
+		}
+	}
 	jsonEntries := byCodec["json"]
 	for mi, m := range mockList {
 		for _, name := range []string{"pkg.UnmarshalJSON", "Object.UnmarshalJSON"} {
